@@ -27,7 +27,13 @@ CHECKS = {
          'DoMultiCache, DoStream, DoMultiStream, Dedicated with mixed SendToReplicas values) runs throughout. Every trace (sentinel '
          'replies and pushes, ROLE answers, tagged user commands at the receiving node, the 11 hook points of _switchTarget, Call/Ret) '
          'must be accepted by SentinelTrace.tla with the SentinelCore invariants true after every event; each scenario ends with a '
-         'clean failover whose +switch-master the client must follow within a bounded wait (FollowsSwitchObserved).',
+         'clean failover whose +switch-master the client must follow within a bounded wait (FollowsSwitchObserved). '
+         'Round 2: the sentinels monitor several master sets (SetNames: the client\'s name, a name it is a strict prefix of, a '
+         'strict prefix of it, one it is a suffix of, a case variant, an unrelated one) and publish the events of all of them; an '
+         'event is a report about the client\'s master only if Concerns(name) (equality with MasterSet) -- in the model and in '
+         'trace validation (Push records carry the name); negative configs BugPrefixMatch / BugAnySet -> SwapOnlyReported; '
+         'GenSpecF generates scenarios whose foreign events are tempting (name a node that is up, answers ROLE master and was '
+         'never reported for the client\'s set); canonical scenario foreign-master-sets in the three modes.',
     design_ref='DESIGN.md 4.5, 5 C23; proposed/design_sentinel.md',
     note='Trusted: TLC; fakeredis as Redis/Sentinel double; placement of the add-only hooks (swap.begin before the stores, failure hooks '
          'after target.Close()). Verification is per address: the client (by design) re-dials an installed address without asking ROLE '
@@ -48,8 +54,31 @@ C21_NONCLUSTER_TEXT = (
     'and every redirect behaviour containing a followed redirect with the predicted targets; harness/cmd/sentineldrv applies all of '
     'them to the real standalone / sentinel clients on fakeredis nodes and compares the node that logged SRecv (and the caller-visible '
     'result for redirects). The routing classes are additionally evaluated by SentinelTrace.tla on traces of the sentinel client '
-    'while it switches masters and replicas.')
+    'while it switches masters and replicas. Round 2: SentinelRoute.tla describes a call as a sequence of transmissions (Sends): with '
+    'ConnLifetime the connection picked for a call can expire after k replies (the rest is sent again), a transport failure makes '
+    'the retry handler send the call again; every transmission must stay in the class of the whole call '
+    '(SentinelReplicaOnlyWhenOptedIn over all transmissions, WholeCallOneClass; negative config BugRepickRemainder); 220 further cases '
+    '(3 modes x Do/DoMulti/DoCache/DoMultiCache x flag patterns incl. 3-command batches x expire/cut after k). The driver provokes the '
+    'fault inside the data node (replies held from command k on, connection cut when the PING of pipe.Close() shows that the lifetime '
+    'timer fired) on clients with ConnLifetime + AlwaysPipelining and judges every reception of every transmission.')
 C21_NONCLUSTER_NOTE = (
     'A call that opted in but reached the primary is reported as divergence (inconclusive), not as a violation: the property only '
     'forbids replicas without opt-in. ReplicaOnly is exercised for the sentinel client (the standalone client has no such mode). '
-    'Found and fixed: 7db1d7e (EnableRedirect + SendToReplicas=true without replicas panicked in pick()).')
+    'Found and fixed: 7db1d7e (EnableRedirect + SendToReplicas=true without replicas panicked in pick()). The lifetime cases need a '
+    'pipelined connection (AlwaysPipelining): the synchronous path fails a batch as a whole and never takes the lifetime recovery with '
+    'a partly answered batch. checks/c21.py runs this part beside the cluster part.')
+
+# checks/c21.py runs the non-cluster part beside the cluster part (round 2): its paragraphs belong to the C21 entry, which
+# the cluster family owns (one entry per property)
+try:
+    from checks.reg import cluster as _cluster
+    _e = _cluster.CHECKS['C21']
+    if C21_NONCLUSTER_TEXT not in _e['text']:
+        _e['technique'] += ('; non-cluster clients: TLC-enumerated routing cases (Standalone.tla, SentinelRoute.tla incl. calls re-sent after '
+                            'ConnLifetime expiry / transport failure) and redirect behaviours (StandaloneRedirect.tla) applied to the real standalone '
+                            'and sentinel clients on fakeredis, sentinel traces validated by SentinelTrace.tla')
+        _e['text'] += ' ' + C21_NONCLUSTER_TEXT
+        _e['note'] = _e['note'].replace('Cluster part only; standalone and sentinel routing belong to the Standalone/Sentinel specs. ', '') + ' ' + C21_NONCLUSTER_NOTE
+        _e['design_ref'] += '; design/sentinel.md'
+except Exception:
+    pass
